@@ -538,7 +538,7 @@ def gen_long(ctx, dense):
     minority of cases — one or more offending pieces, a missing closing quote, a trailer after the quote.
     dense: escapes everywhere; otherwise at most ~150 escape pieces per literal (long runs in between)"""
     rng = ctx.rng
-    n = (150 if ctx.tier == 'quick' else 600) if dense else (300 if ctx.tier == 'quick' else 1200)
+    n = (60 if ctx.tier == 'quick' else 600) if dense else (100 if ctx.tier == 'quick' else 1200)
     for k in range(n):
         target = rng.choice([10, 50, 200, 1000, 5000, 20000, 65536]) if k % 10 else 65536
         out = bytearray()
@@ -561,7 +561,7 @@ def gen_long(ctx, dense):
 def gen_long_strings(ctx):
     """random UTF-8 strings for the serializer, up to 64 KiB, dense in characters that need escaping"""
     rng = ctx.rng
-    n = 300 if ctx.tier == 'quick' else 3000
+    n = 100 if ctx.tier == 'quick' else 2000
     alpha = ['"', '\\', '/', '\b', '\f', '\n', '\r', '\t', '\x00', '\x01', '\x1f', ' ', '\x7f', '\x80', 'é', '€', '😀', '퟿', '', '￿', '\U0010ffff', 'a', 'z']
     for k in range(n):
         target = rng.choice([0, 1, 2, 7, 8, 9, 50, 200, 1000, 5000, 20000, 65536])
